@@ -257,6 +257,8 @@ theorem triangle_pixels_translate_partial (t : Tri) (style : TriStyle) (d : Pt)
 -- the former C07 witness (triangle (-5,-4),(-5,-1),(-1,-4), width 3, Center, moved by (-7,-9)) satisfies the guards
 example : TriGuards ⟨⟨-5, -4⟩, ⟨-5, -1⟩, ⟨-1, -4⟩⟩ ⟨some 2, some 1, 3, .center⟩ ⟨-7, -9⟩ := by decide
 
--- [V] the guards (PolyNoSat, BoxGuard, RowsGuard, TriGuards: no saturating i32 cast in a USED intersection point, box corners are i32 values, rows() does not saturate) hold for all display-scale inputs: carried by correspondence + oracle only
+-- The saturation guards (`NoSat` in the form `PointOK`, `JoinNoSat`, `PolyNoSat`, `TriNoSat`: no saturating i32 cast in a USED
+-- intersection point) are PROVED for all display-scale inputs in Props/C07/JoinsDisplayScale.lean; what remains of this line
+-- (`BoxGuard`, `RowsGuard`, `TriBoxGuard`, `TriRowsGuard`) is listed there as [V].
 
 end EG.C07.Joins
